@@ -94,11 +94,16 @@ fn chown_tree(p: &Path, uid: u32) {
 
 /// Create the jail skeleton. The output directory itself is NOT created (the tool creates it).
 pub fn build(root: &Path) -> Jail {
+    build_with_out(root, "out")
+}
+/// ... with another name for the output directory (the name may hold characters that are separators in
+/// archive entry names but ordinary characters in a directory name, e.g. a backslash)
+pub fn build_with_out(root: &Path, out_leaf: &str) -> Jail {
     let _ = std::fs::remove_dir_all(root);
     let deep = DEEP.join("/");
     let j = Jail {
         root: root.to_path_buf(),
-        out_rel: format!("{}/out", deep),
+        out_rel: format!("{}/{}", deep, out_leaf),
         cwd_rel: format!("{}/cwd", deep),
         home_rel: "home".to_string(),
         anchor: format!("{}/{}", root.display(), crate::names::ANCHOR_REL.join("/")),
